@@ -16,6 +16,7 @@
 
 void w19_init(void);
 void w19_ghost(int idx, int cls_kid, int cls_clone, int cls_subst, int subst_mode);
+void w19_kid_kind(int idx, int kind);
 void w19_ghost_subst_class(int cls);
 void w19_set_subst_identifier(int sym);
 void w19_root_identifier(int t, int sym, int pos);
@@ -80,8 +81,13 @@ static int source_unchanged(int t, struct node n)
         if (i < n.nsub && w19_obs(ROOT, t, O_SUB, i) != t * NKID + i) return 0;
     return 1;
 }
+static void any_kid_kinds(void)
+{
+    for (int i = 0; i < NTREE * NKID; i++) { int k; __CPROVER_assume(VALID_KIND(k)); w19_kid_kind(i, k); }
+}
 static void ghosts_clone_hypothesis(void)
 {
+    any_kid_kinds();
     /* induction hypothesis: the clone of a child is equal to the child (same class); subst results arbitrary */
     for (int i = 0; i < NTREE * NKID; i++) {
         int c, s, m;
@@ -153,6 +159,7 @@ void h_c19_clone_deeper_frame(void)
 
 static void ghosts_any(void)
 {
+    any_kid_kinds();
     for (int i = 0; i < NTREE * NKID; i++) {
         int c, d, s, m;
         __CPROVER_assume(m >= 0 && m <= 2);
@@ -164,6 +171,7 @@ static void ghosts_any(void)
 void h_c19_subst(void)
 {
     w19_init();
+    any_kid_kinds();
     int modes[NKID];
     for (int i = 0; i < NTREE * NKID; i++) {
         int c, d, s, m;
@@ -206,6 +214,7 @@ void h_c19_subst_identity(void)
     __CPROVER_assume(s >= 0 && s < 4 && (base == 0 || base == 1));
     w19_set_subst_identifier(s);
     w19_ghost_subst_class(sc);
+    any_kid_kinds();
     /* induction hypothesis: substituting id(s) for s in a child yields something equal to the child */
     for (int i = 0; i < NTREE * NKID; i++) {
         int c, d, m;
@@ -237,6 +246,7 @@ static int oracle_equal(struct node a, struct node b, const int* clsA, const int
 void h_c19_equal_spec(void)
 {
     w19_init();
+    any_kid_kinds();
     int cls[NTREE * NKID];
     for (int i = 0; i < NTREE * NKID; i++) {
         int c, d, s2, m;
